@@ -316,6 +316,8 @@ def rule_f(ctx, E):
         amap = E.alias.get(ca, {})
         rets = [r for r in ast.walk(ca.node) if isinstance(r, ast.Return) and r.value is not None]
         shared = []
+        # attributes of self are read as state of self even when this call (re)assigned them a fresh array: the object keeps them
+        amap = {a: b for a, b in amap.items() if not a.startswith("self.")}
         for r in rets:
             roots = E.roots(r.value, ca, amap)
             if ca.params and ca.params[0] in roots:
